@@ -73,7 +73,8 @@ def DType.parseFull (s : String) : Option DType :=
   else none
 
 /-- `Parameter.from_json` on a specification entry, `tensor` branch only (`none`: another branch
-or an error) -/
+or an error).  `torch.tensor(values, dtype=…)` rounds the values to the dtype; as in `objectHook` the
+model keeps them, i.e. it covers values exactly representable in the dtype the entry names. -/
 def paramFromSpec (dflt : DType) : Json → Option Val
   | .obj kvs =>
       if generatorKeys.any (fun k => (kvs.lookup k).isSome) then none else
